@@ -31,7 +31,7 @@ RULE = ("one unit = one (volume, option set, variant): volumes (130,3,2) "
         "downscaling method {explicit, auto}; option sets {default, --flat --no-gzip, --no-gzip, "
         "--sharding 1,1,0, value mapping (--ignore-scaling --input-min "
         "--input-max; --input-max alone)}; downscaling {explicit, auto, average with "
-        "--outside-value}; menu = generate-info, generate-scales-info, "
+        "--outside-value 200 and 0}; menu = generate-info, generate-scales-info, "
         "volume-to-precomputed, compute-scales, all-in-one pyramid (own "
         "directory), prepare + convert-chunks (third directory), "
         "scale-stats, with --mmap variants; BFS to depth 6 (quick) / 9 "
@@ -71,7 +71,7 @@ VOLUMES = {
     "u8-20cube-tcs8": {"shape": (20, 20, 20), "dtype": "uint8",
                        "vox": (1, 1, 1), "tcs": 8},
 }
-METHODS = ("explicit", "auto", "average-outside")
+METHODS = ("explicit", "auto", "average-outside", "average-outside-zero")
 OPTSETS = {"default": [], "flat-nogzip": ["--flat", "--no-gzip"],
            "nogzip": ["--no-gzip"], "sharded": [], "valuemap": [],
            "valuemap-max": []}
@@ -110,6 +110,8 @@ def commands(vol, optset, ws, mmap, method="explicit"):
         dsm = []            # "auto": average for images, stride for labels
     elif method == "average-outside":
         dsm = ["--downscaling-method", "average", "--outside-value", "200"]
+    elif method == "average-outside-zero":
+        dsm = ["--downscaling-method", "average", "--outside-value", "0"]
     else:
         dsm = ["--downscaling-method", "majority" if seg else "stride"]
     vm = (VALUEMAP if optset == "valuemap" else
@@ -512,7 +514,7 @@ def units(tier):
                 if mmap and (tier == "quick" and optset != "default"):
                     continue
                 for method in METHODS:
-                    if method == "average-outside" and (
+                    if method.startswith("average-outside") and (
                             VOLUMES[vol].get("segmentation") or mmap
                             or optset not in ("default", "nogzip")):
                         continue
